@@ -133,6 +133,7 @@ def run_check(prop, cases, level_text, assumptions, outside, predicates=None, ar
   _CASES.clear()
   _CASES.update({c['name']: c for c in sel})
   _OPTS['seed'] = seed
+  _OPTS['only'] = only
   nproc = int(os.environ.get('VERIF_JOBS', '0') or 0) or min(16, max(1, len(sel)))
   results = []
   hard = {}
@@ -352,13 +353,14 @@ def write_evidence(prop, tier, seed, sel, results, level_text, assumptions, outs
   if paths == 0:
     # no symx paths (CrossHair / concrete-only cases): use the generic counting keys instead
     cov = ev['coverage']
-    del cov['states'], cov['transitions']
+    cov['states'], cov['transitions'] = 0, 0   # (the keys stay: the level's record requires them)
     cov['evaluations'] = max(nconc, 1)
     cov['distinct_nontrivial'] = len({(pc['case'], n) for pc in per_case for n in pc.get('concrete_obligation_names', [])})
     cov['rule'] = ('one evaluation = one contract condition decided by CrossHair over all paths (or one sentinel identity '
                    'check) on the real constructor; distinct = distinct (estimator, obligation)')
     cov['samples'] = [{'case': pc['case'], 'obligations': pc.get('concrete_obligation_names', [])[:8]} for pc in per_case[:6]]
   # evidence/ describes /repo itself; a run redirected at a scratch copy (seed matrix, VERIF_REPO) writes elsewhere
-  evdir = os.path.join(VERIF, 'evidence') if os.path.realpath(REPO) == '/repo' else os.path.join(VERIF, '.work', 'evidence_scratch')
+  # ... and so does a partial run (--case): the committed evidence always describes a complete tier
+  evdir = os.path.join(VERIF, 'evidence') if (os.path.realpath(REPO) == '/repo' and _OPTS.get('only') is None) else os.path.join(VERIF, '.work', 'evidence_scratch')
   os.makedirs(evdir, exist_ok=True)
   json.dump(ev, open(os.path.join(evdir, prop + '.json'), 'w'), indent=1)
